@@ -14,9 +14,14 @@
 (*  r2delta  round-two share off by d                                       *)
 (*  r2route  s's round-two package addressed to another recipient x         *)
 (*  r2own / r2unknown / r2missing / r2surplus                               *)
+(*  bothmissing  part2 sees everybody; at part3 s is absent from both maps  *)
+(*               (pruned consistently, as after a peer timed out)           *)
+(*  bothsurplus  at part3 both maps carry an extra pair under an unknown id *)
+(* PairMode "ends" restricts (receiver, sender) to the smallest and largest *)
+(* identifier (both ways) for the shape sweeps.                             *)
 EXTENDS Frost, Json
 
-CONSTANTS Shapes, IdSets, A0Choices, CoeffChoices, KChoices, Deltas, Faults, EMIT
+CONSTANTS Shapes, IdSets, A0Choices, CoeffChoices, KChoices, Deltas, Faults, PairMode, EMIT
 
 VARIABLES pc, sc
 vars == <<fvars, pc, sc>>
@@ -47,6 +52,7 @@ Part1 ==
 ChooseFault ==
   /\ pc[1] = "fault"
   /\ \E r \in IdSet, s \in IdSet : r # s /\
+       (PairMode = "ends" => {r, s} = {sc.ids[1], sc.ids[sc.n]}) /\
        \E f \in Faults :
          \/ /\ f = "r1field"
             /\ \/ \E w \in {"R", "mu"}, d \in Deltas : sc' = sc @@ [r |-> r, s |-> s, fault |-> [kind |-> f, what |-> w, k |-> 0, d |-> d]]
@@ -55,7 +61,8 @@ ChooseFault ==
             /\ \E w \in {"trunc", "extend"} : sc' = sc @@ [r |-> r, s |-> s, fault |-> [kind |-> f, what |-> w, k |-> 0, d |-> 1]]
          \/ /\ f \in {"r1swap", "r2route", "r1graft"}
             /\ \E x \in IdSet \ {r, s} : sc' = sc @@ [r |-> r, s |-> s, fault |-> [kind |-> f, x |-> x]]
-         \/ /\ f \in {"r1own", "r1unknown", "r1missing", "r1surplus", "r2own", "r2unknown", "r2missing", "r2surplus"}
+         \/ /\ f \in {"r1own", "r1unknown", "r1missing", "r1surplus", "r2own", "r2unknown", "r2missing", "r2surplus",
+                     "bothmissing", "bothsurplus"}
             /\ sc' = sc @@ [r |-> r, s |-> s, fault |-> [kind |-> f]]
          \/ /\ f = "r1late"
             /\ \E k \in 1..sc.t, d \in Deltas : sc' = sc @@ [r |-> r, s |-> s, fault |-> [kind |-> f, k |-> k, d |-> d]]
@@ -109,6 +116,8 @@ R1At(stage) ==
     [] F.kind = "r1missing" -> Without(Honest1, sc.s)
     [] F.kind = "r1surplus" -> (Unknown :> <<"r1p", sc.s>>) @@ Honest1
     [] F.kind = "r1late"    -> IF stage = 3 THEN [Honest1 EXCEPT ![sc.s] = <<"r1x", sc.s>>] ELSE Honest1
+    [] F.kind = "bothmissing" -> IF stage = 3 THEN Without(Honest1, sc.s) ELSE Honest1
+    [] F.kind = "bothsurplus" -> IF stage = 3 THEN (Unknown :> <<"r1p", sc.s>>) @@ Honest1 ELSE Honest1
     [] OTHER -> Honest1
 
 R2Map ==
@@ -118,6 +127,8 @@ R2Map ==
     [] F.kind = "r2unknown" -> (Unknown :> <<R2N[sc.s], sc.r>>) @@ Without(Honest2, sc.s)
     [] F.kind = "r2missing" -> Without(Honest2, sc.s)
     [] F.kind = "r2surplus" -> (Unknown :> <<R2N[sc.s], sc.r>>) @@ Honest2
+    [] F.kind = "bothmissing" -> Without(Honest2, sc.s)
+    [] F.kind = "bothsurplus" -> (Unknown :> <<R2N[sc.s], sc.r>>) @@ Honest2
     \* when the round-one map is keyed differently the round-two map follows it
     [] F.kind = "r1swap"    -> Honest2
     [] OTHER -> Honest2
@@ -157,7 +168,7 @@ InvNoSilentAccept ==
 \* which identifier the faulty entry is filed under (what an error may name)
 FaultSlots ==
   CASE F.kind = "r1swap" -> {sc.s, F.x}
-    [] F.kind \in {"r1unknown", "r1surplus", "r2unknown", "r2surplus"} -> {Unknown, sc.s}
+    [] F.kind \in {"r1unknown", "r1surplus", "r2unknown", "r2surplus", "bothsurplus"} -> {Unknown, sc.s}
     [] OTHER -> {sc.s}
 
 \* an error names nobody but the offender
@@ -170,7 +181,8 @@ InvCulprits ==
 InvCaught ==
   (Faulty /\ pc[1] = "done") =>
      /\ (F.kind \in {"r1len", "r1own", "r1missing", "r1surplus"}) => (last.op = "dkg2" /\ ~last.res.ok)
-     /\ (F.kind \in {"r2own", "r2unknown", "r2missing", "r2surplus"}) => (last.op = "dkg3" /\ ~last.res.ok)
+     /\ (F.kind \in {"r2own", "r2unknown", "r2missing", "r2surplus", "bothmissing", "bothsurplus"}) =>
+           (last.op = "dkg3" /\ ~last.res.ok)
      /\ (F.kind \in {"r2delta", "r1late"}) =>
            (last.op = "dkg3" /\ ~last.res.ok /\ last.res.err = "InvalidSecretShare" /\ last.res.culprits = <<sc.s>>)
      /\ (F.kind = "r1field" /\ F.what = "commit" /\ F.k >= 2) =>
